@@ -11,7 +11,7 @@ EXPLANATION = ('Structural necessary conditions of C14 in State::process_task_fa
                'exactly the ids that were aborted (one read of non_finished_task_ids taken before the abort); tako cancels what it is told; '
                'non_finished_task_ids selects exactly {Waiting, Running}.')
 NOT_DECIDED = ['counts over all arrival orders (follows from R13.1 + atomic handlers, not separately decided)']
-RELATED = {'C08': ['R08.1', 'R08.4'], 'C10': ['R10.6', 'R10.9', 'R10.7']}
+RELATED = {'C08': ['R08.1', 'R08.4'], 'C10': ['R10.6', 'R10.9', 'R10.7'], 'C12': ['R12.2', 'R12.1~^TasksAborted']}
 ASSUMPTIONS = []
 PTF = HQ + 'state::State::process_task_failed'
 
